@@ -28,6 +28,9 @@ def histories(pid, tier, rnd):
         else:
             h = pfxlib.gen_history(rnd, nops=rnd.randint(10, 50), nq=40)
         hs.append(h)
+    # a few long histories over a larger key pool (deep / wide tries, many pull-ups)
+    for k in range({"quick": 6, "thorough": 200}[tier]):
+        hs.append(pfxlib.gen_history(rnd, nops=rnd.randint(200, 500), nsrc=4, nq=60))
     ndeep = {"quick": 2, "thorough": 12}[tier]
     if pid in ("C01", "C02"):
         for k in range(ndeep):
